@@ -3,7 +3,7 @@ from __future__ import annotations
 
 from vf.core import codec
 from vf.core.base import Violation
-from vf.core.env import Env
+from vf.core.env import Env, take_rows
 from vf.core.gen import Cfg, st_program
 from vf.core.prog import BuildError, build_all, children, describe_case, ev_list, fmt, kinds, n_ops, show_rows
 
@@ -220,7 +220,7 @@ def run_case(case, stats):
             stats.c["class:peeked-first"] += 1
         for k in range(1 + peeks, iters + 1 + peeks):
             try:
-                got = [dict(r) for r in result]
+                got = take_rows(result)
             except Exception as e:
                 raise Violation("iterate-raised", f"{type(e).__name__}: {e}; {ctx}", exc=e)
             if got != expected:
@@ -242,7 +242,7 @@ def run_case(case, stats):
         # caches ("never again afterwards")
         before2 = counters()
         try:
-            again = [dict(r) for r in root.engine.execute(root)]
+            again = take_rows(root.engine.execute(root))
         except Exception as e:
             raise Violation("execute-raised", f"second execute(): {type(e).__name__}: {e}; {ctx}", exc=e)
         if again != expected:
